@@ -36,6 +36,11 @@ class Timeline:
         # union of warps
         segs = []
         for b, ln in sorted((Fraction(b), Fraction(ln)) for b, ln in warps):
+            # a warp's length is a beat count read from decimal text: like every such beat it snaps to the
+            # 1/48 grid (C14); a positive length below half a tick is therefore an empty segment
+            ln = Fraction(round(ln * 48), 48)
+            if ln <= 0:
+                continue
             s, e = b, b + ln
             if segs and s <= segs[-1][1]:
                 if e > segs[-1][1]:
